@@ -247,7 +247,7 @@ def class_positional_keyword_trap(p):
     if k == "or":
         return any(class_positional_keyword_trap(a) for a in p[1])
     if k == "as":
-        return class_positional_keyword_trap(p[1])
+        return p[1][0] == "as" or class_positional_keyword_trap(p[1])      # (p :as a) :as b has no Hy spelling either
     return False
 
 
@@ -277,9 +277,8 @@ def hy_program(p, variant, fname="m"):
         cases.append('_ ["else"]')
     if ctx == "after-miss":
         cases.append('other ["other" other]')
-    pre = " ".join(f'{n} "{v}"' for n, v in PRESET)
-    dump = " ".join(f'"{n}" {n}' for n in DUMP)
-    return (f"(defn {fname} [s gv] (setv {pre}) (setv {target} (match s " + " ".join(cases) + f")) {{{dump}}})")
+    names = " ".join(n for n, v in PRESET)
+    return (f"(defn {fname} [s gv] (setv [{names}] PRE) (setv {target} (match s " + " ".join(cases) + ")) (locals))")
 
 
 def py_program(p, variant, fname="m"):
@@ -298,9 +297,8 @@ def py_program(p, variant, fname="m"):
         body += f'        case _:\n{ind}_v = ["else"]\n'
     if ctx == "after-miss":
         body += f'        case other:\n{ind}_v = ["other", other]\n'
-    pre = "".join(f'    {n} = "{v}"\n' for n, v in PRESET)
-    dump = ", ".join(f'"{n}": {n}' for n in DUMP)
-    return (f"def {fname}(s, gv):\n{pre}    _v = None\n    match s:\n{body}    {target} = _v\n    return {{{dump}}}\n")
+    names = ", ".join(n for n, v in PRESET)
+    return (f"def {fname}(s, gv):\n    {names} = PRE\n    _v = None\n    match s:\n{body}    {target} = _v\n    return locals()\n")
 
 
 # ---------------------------------------------------------------- subjects
@@ -333,6 +331,7 @@ def make_env():
     env = {"Pt": Pt, "NS": types.SimpleNamespace(Pt=Pt), "K": types.SimpleNamespace(one=2),
            "KWK": hy.models.Keyword("k"), "KWJ": hy.models.Keyword("j")}
     env["KWV"] = types.SimpleNamespace(k=env["KWK"], j=env["KWJ"])
+    env["PRE"] = tuple(v for n, v in PRESET)
     return env
 
 
